@@ -395,6 +395,41 @@ def pending_read_complete_sqlite(fn: ast.FunctionDef) -> bool:
     return whole
 
 
+def mem_pending_in_place(tree: ast.Module) -> bool:
+    """MemTrigger: outside __init__ the pending dict self._valid_conditions is never re-bound (only mutated in place:
+    subscript store, del, .clear(), .pop()): a reporter that already loaded the dict object cannot write into a dict the
+    store no longer reads"""
+    cls = [n for n in tree.body if isinstance(n, ast.ClassDef) and n.name == "MemTrigger"]
+    if len(cls) != 1:
+        raise TranslateError("MemTrigger not found")
+
+    def is_store(t):
+        return isinstance(t, ast.Attribute) and t.attr == "_valid_conditions" and isinstance(t.value, ast.Name) and t.value.id == "self"
+    init_binds, rebinds = 0, 0
+    for fn in cls[0].body:
+        if not isinstance(fn, ast.FunctionDef):
+            continue
+        for n in ast.walk(fn):
+            tg = []
+            if isinstance(n, ast.Assign):
+                tg = [x for t in n.targets for x in (t.elts if isinstance(t, ast.Tuple) else [t])]
+            elif isinstance(n, (ast.AugAssign, ast.AnnAssign)):
+                tg = [n.target]
+            elif isinstance(n, ast.NamedExpr):
+                tg = [n.target]
+            k = sum(1 for t in tg if is_store(t))
+            if fn.name == "__init__":
+                init_binds += k
+            else:
+                rebinds += k
+        if any(isinstance(n, ast.Call) and isinstance(n.func, ast.Name) and n.func.id == "setattr"
+               and any(isinstance(a, ast.Constant) and a.value == "_valid_conditions" for a in n.args) for n in ast.walk(fn)):
+            rebinds += 1
+    if init_binds != 1:
+        raise TranslateError("MemTrigger.__init__ does not bind self._valid_conditions exactly once")
+    return rebinds == 0
+
+
 def _sql_full(call: ast.Call) -> str:
     """SQL text of an execute call, also when it is built from adjacent / concatenated (f-)strings"""
     if not call.args:
@@ -468,6 +503,7 @@ def extract(repo: str) -> tuple[dict, dict]:
     f["mem_source_filter_exact"] = source_filter_exact(_method(mem, "MemTrigger", "get_conditions_sourced_from_task"))
     f["sqlite_source_filter_exact"] = source_filter_exact(_method(sql, "SQLiteTrigger", "get_conditions_sourced_from_task"))
     f["mem_pending_read_complete"] = pending_read_complete_mem(_method(mem, "MemTrigger", "get_valid_conditions"))
+    f["mem_pending_in_place"] = mem_pending_in_place(mem)
     f["sqlite_pending_read_complete"] = pending_read_complete_sqlite(_method(sql, "SQLiteTrigger", "get_valid_conditions"))
 
     shapes = {
@@ -518,6 +554,7 @@ def emit(f: dict) -> str:
         ("f_sqlite_source_filter_exact", _b(f["sqlite_source_filter_exact"])),
         ("f_mem_pending_read_complete", _b(f["mem_pending_read_complete"])),
         ("f_sqlite_pending_read_complete", _b(f["sqlite_pending_read_complete"])),
+        ("f_mem_pending_in_place", _b(f["mem_pending_in_place"])),
     ]
     lines = [
         "(* GENERATED by harness/translate/trigger.py from pynenc/trigger/*.py.",
